@@ -209,6 +209,7 @@ def check_C06(ctx, rep):
                   providers=['dfa_algorithms.fresh_state', 'nfa_algorithms._fresh_nfa_state'])
     if n < 4:
         raise AnalysisError('fewer than 4 name-introduction sites found for C06')
+    fresh.check_generator(ctx, rep)
     _eps_in(ctx, rep, ['nfa_algorithms.nfa_union', 'nfa_algorithms.nfa_repetition', 'nfa_algorithms.nfa_concatenation',
                        'regexp_algorithms.RegexpToNFAGenerator.generate_symbol', 'regexp_algorithms.RegexpToNFAGenerator.generate_zero',
                        'regexp_algorithms.RegexpToNFAGenerator.generate_one'])
@@ -362,6 +363,7 @@ def check_C12(ctx, rep):
     feedback.check_k4_roles(ctx, rep, roles)
     for f in fs:
         feedback.check_k8(ctx, rep, f, roles)
+        feedback.check_k9(ctx, rep, f, roles)
     # the checkers judge what the parsers built from the submitted text
     build.check_builder_fields(ctx, rep)
     feedback.check_compare_languages(ctx, rep, ctx.prog.func('language_generator.compare_languages'))
@@ -440,6 +442,7 @@ def check_C17(ctx, rep):
     if build.check_builder_fields(ctx, rep) < 7:
         raise AnalysisError('fewer than 7 builder state-set arguments found')
     build.check_value_validators(ctx, rep)
+    build.check_tm_default_alphabet(ctx, rep)
     if build.check_parse_line(ctx, rep) < 4:
         raise AnalysisError('fewer than 4 keyword stores found in parse_line')
     if build.check_invariants(ctx, rep) < 30:
@@ -491,7 +494,8 @@ def check_C15(ctx, rep):
     rep.clauses_decided += ['epsilon-path searches terminate and their predecessor maps are written once per node (R-WORK W2/W3)',
                             'the unread-input column is the suffix word[k:] in all three simulators (M8)',
                             'the history alternates raw and closed sets; acceptance and steps on closed sets (R-CLOSED i/ii/iv)',
-                            'right-hand sides are unpacked into two symbols only under a length-2 test (R-ARITY)']
+                            'right-hand sides are unpacked into two symbols only under a length-2 test (R-ARITY)',
+                            'every node of the derivation tree is expanded by exactly one alternative: the loop over the split points is left after the children were added (R-WORK W9)']
     rep.not_decided += ['that each returned row is a legal move; leftmost/rightmost order of the derivation']
     _worklists_in(ctx, rep, ['nfa_algorithms.nfa_find_epsilon_path', 'pda_algorithms.pda_find_epsilon_path', 'nfa_algorithms.epsilon_closure', 'pda_algorithms.pda_epsilon_closure'])
     work.check_worklists(ctx, rep, F(ctx, 'cfg_algorithms.cfg_derive_word', 'cfg_algorithms.cfg_derive_word.extract_derivation'))
@@ -506,6 +510,8 @@ def check_C15(ctx, rep):
     models.check_backward_word(ctx, rep, P('pda_algorithms.pda_simulate_word'))
     if misc.check_arity(ctx, rep, P('cfg_algorithms.cfg_derive_word')) < 1:
         raise AnalysisError('right-hand-side unpack in cfg_derive_word vanished')
+    if work.check_single_expansion(ctx, rep, P('cfg_algorithms.cfg_derive_word')) < 1:
+        raise AnalysisError('tree-building loop of cfg_derive_word vanished')
     _effect_on(ctx, rep, ['dfa_algorithms.dfa_simulate_word', 'nfa_algorithms.nfa_simulate_word', 'pda_algorithms.pda_simulate_word',
                           'nfa_algorithms.nfa_find_epsilon_path', 'pda_algorithms.pda_find_epsilon_path', 'nfa_algorithms.nfa_find_transition',
                           'pda_algorithms.pda_find_transition', 'cfg_algorithms.cfg_derive_word'], shared=False)
@@ -522,6 +528,7 @@ def check_C18(ctx, rep):
                   providers=['nfa_algorithms._fresh_nfa_state'])
     if n < 2:
         raise AnalysisError('fewer than 2 state-introduction sites found for C18')
+    fresh.check_generator(ctx, rep)
     if _eps_in(ctx, rep, ['nfa_algorithms.nfa_union', 'nfa_algorithms.nfa_repetition', 'nfa_algorithms.nfa_concatenation']) < 3:
         raise AnalysisError('NFA constructor sites of the building blocks vanished')
     fresh.check_eps_translation(ctx, rep, ctx.prog.func('nfa_algorithms._add_nfa_transitions'))
